@@ -409,7 +409,7 @@ def h_init_request(shape, n_peer):
     return {'class': ['init_request'], 'violation': f'unexpected reply {notes}'}
 
 
-def h_child_request(sit, n_dh):
+def h_child_request(sit, n_dh, with_ke=True):
     """responder whose CHILD policy lists the groups (ecp384, ecp256) receives a CREATE_CHILD_SA request (new / rekey) offering n_dh ARBITRARY DH
     groups with a KE payload in an ARBITRARY group"""
     from symx import core
@@ -432,7 +432,8 @@ def h_child_request(sit, n_dh):
             trs.extend(dh_trs)
             enc.append(m.PayloadSA([m.Proposal(pr.num, pr.protocol_id, pr.spi, trs)]))
         elif x.type == m.Payload.Type.KE:
-            enc.append(m.PayloadKE(group, x.ke_data))
+            if with_ke:
+                enc.append(m.PayloadKE(group, x.ke_data))
         else:
             enc.append(x)
     msg = m.Message(spi_i=b.spi_i, spi_r=b.spi_r, major=2, minor=0, exchange_type=36, is_response=False, can_use_higher_version=False,
@@ -468,7 +469,8 @@ def h_child_request(sit, n_dh):
         P(core.sym_and(group == want, ex.info == want), 'Diffie-Hellman was started in a group other than the chosen one (first local group that the peer offers)')
         return ['child_request', 'dh']
     if any(x['op'] == 'NEWSA' for x in p.B.kernel.log[n_log:]):
-        return {'class': ['child_request'], 'violation': 'an SA was installed although the request was not accepted'}
+        return {'class': ['child_request'], 'violation': 'a CHILD_SA was installed without the Diffie-Hellman exchange that the local policy (dh: ecp384, ecp256) requires'
+                                                         + ('' if with_ke else ' (the request carried no KE payload)')}
     if len(sent) != 1:
         return {'class': ['child_request'], 'violation': f'{len(sent)} responses generated'}
     notes = [x for x in sent[0] if x.type == m.Payload.Type.NOTIFY]
@@ -479,8 +481,11 @@ def h_child_request(sit, n_dh):
           'INVALID_KE_PAYLOAD does not name the chosen group (the first local group that the peer offers), or the KE group was the chosen one')
         return ['child_request', 'invalid_ke']
     if kinds == [int(m.PayloadNOTIFY.Type.NO_PROPOSAL_CHOSEN)]:
-        P(core.sym_not(core.sym_or(has20, has19)), 'NO_PROPOSAL_CHOSEN although an offered group is in the local policy')
+        if with_ke:
+            P(core.sym_not(core.sym_or(has20, has19)), 'NO_PROPOSAL_CHOSEN although an offered group is in the local policy')
         return ['child_request', 'no_proposal']
+    if not with_ke and b.state == S.DELETED:
+        return ['child_request', 'refused']          # a missing KE payload for an offered group is a syntax error
     return {'class': ['child_request'], 'violation': f'unexpected answer: notifications {kinds}'}
 
 
@@ -570,6 +575,9 @@ def build_instances(tier):
     for k in ((0, 2, 8) if tier == 'quick' else (0, 1, 2, 3, 5, 8, 16)):
         inst.append(Instance(f'child_response esp spi_len={k}', h_child_response, ('esp', k), native=nat(h_child_response),
                              must_reach=[('refused', lambda o: o[:2] == ['child_response', 'refused'])]))
+    for sit in ('new', 'rekey'):
+        for n_dh in (0, 1):
+            inst.append(Instance(f'child_request {sit} offered_groups={n_dh} without KE', h_child_request, (sit, n_dh, False), native=nat(h_child_request)))
     for sit in ('new', 'rekey'):
         for n_dh in (1, 2):
             inst.append(Instance(f'child_request {sit} offered_groups={n_dh}', h_child_request, (sit, n_dh), native=nat(h_child_request),
